@@ -8,6 +8,7 @@ from .arguments import parser as argparse
 from .backends import list_backends
 from .backends.compdb import writer as compdb
 from .build_inputs import Regenerating
+from .builtins.find import FindCacheFile
 from .environment import Environment, EnvVersionError
 from .exceptions import AbortConfigure
 from .platforms.target import platform_info
@@ -246,6 +247,15 @@ def configure(parser, subparser, args, extra):
         if not args.no_resolve_packages:
             env.mopack = build.resolve_packages(env, args.package_files,
                                                 args.package_flags)
+
+        # The find cache of an earlier configuration must not let a lazy
+        # regeneration skip rewriting the build files for this one (e.g. if
+        # we're interrupted after saving the new environment).
+        try:
+            os.remove(os.path.join(args.builddir.string(),
+                                   FindCacheFile.cachefile))
+        except FileNotFoundError:
+            pass
 
         env.save(args.builddir.string())
 
